@@ -190,6 +190,9 @@ def run_path(module, h, params, prefix, prop_id, known_ids, seed, validate):
         status = 'harness-exception'
         detail = ''.join(traceback.format_exception(type(e), e,
                                                     e.__traceback__)[-6:])
+    finally:
+        for c in reversed(ctx.cleanups):
+            c()
     leaf = {'status': status, 'detail': detail,
             'decisions': len(path.decisions),
             'prefix': list(path.decisions),
